@@ -14,16 +14,16 @@ The property speaks about four layers of the code, each of which has its own mod
   honoured in every state of the session, and a cancelled session takes no further step:
   clause `C12_cancel`;
 * executable content — `Rfsm.Exec`: an evaluation error ends its block only, the following
-  blocks run; the error *event* clause holds for `<if>`, `<foreach>`, `<assign>`, illegal delays and
-  unsupported types, and is FALSE for `<script>`, `<log>` and the expression arguments of `<send>`
-  (finding P11, theorem `C12_counterexample_quiet_error`);
+  blocks run; the error *event* clause holds for `<if>`, `<foreach>`, `<assign>`, illegal delays,
+  unsupported types and — since the `fix:` commit for P11 — `<script>`, `<log>` and the expression
+  arguments of `<send>` / `<cancel>` / `<invoke>` (`C12_content`);
 * the rfsm-expression engine — `Rfsm.Expr`: evaluation can panic (`%` by zero, `abs` of
   `i64::MIN`), block for ever on its own mutex (`a = a`) or never finish lexing (`1 <`):
   `C12_counterexample_expression_*`; each of these kills or wedges the session thread that
   evaluates the expression (replayed on the real code by the `c12` scenario table).
 
 `C12_full` is the conjunction at full strength; it is false of the unchanged code
-(`C12_counterexample`), `C12_partial` is what is proved.  Panics the models do not contain at all
+(`C12_counterexample`: the expression engine), `C12_partial` is what is proved.  Panics the models do not contain at all
 (`Fsm::schedule` with a delay `chrono` cannot represent, `create_datamodel` with an unknown data
 model, a `<history>` without default transition) are found by the scenario table only and are
 listed in known_findings.json.
@@ -247,29 +247,21 @@ theorem C12_cancel : C12_cancel_full := by
   exact ⟨h.1, h.2.1, h2.1, h2.2⟩
 #assert_axioms C12_cancel
 
-/-- C12, executable-content level, error-event clause at full strength for `<script>`: an
-erroring script places `error.execution` on the internal queue -/
+/-- C12, executable-content level, error-event clause for `<script>` / `<log>`: an erroring
+element places `error.execution` on the internal queue (for every data model; since the `fix:`
+commit for P11 — before it the clause was false for data models that report errors quietly) -/
 def C12_content_full : Prop :=
-  ∀ (σ : Type) (ops : DMOps σ) (rs : Regions) (cfg : List Nat) (caller : Option Str) (f : Nat) (e : Str) (x : XS σ),
+  ∀ (σ : Type) (ops : DMOps σ) (rs : Regions) (cfg : List Nat) (caller : Option Str) (f : Nat) (l e : Str) (x : XS σ),
     (ops.exec x.dm cfg e).val = none →
-      errorExecution ∈ (execItem ops rs cfg caller (f + 1) (.expr e) x).1.raised
+      errorExecution ∈ (execItem ops rs cfg caller (f + 1) (.expr e) x).1.raised ∧
+      errorExecution ∈ (execItem ops rs cfg caller (f + 1) (.log l e) x).1.raised
 
-/-- … which is false with a data model that reports the error as `Err` without raising it — as
-both real data models do for parse and reference errors (finding P11 of C08) -/
-theorem C12_counterexample_quiet_error : ¬ C12_content_full := by
-  intro h
-  let ops : DMOps Unit :=
-    { cond := fun dm _ _ => { dm := dm, val := none }, exec := fun dm _ _ => { dm := dm, val := none },
-      assign := fun dm _ _ _ => { dm := dm, val := false }, log := fun dm _ => { dm := dm, val := () },
-      foreachStart := fun dm _ _ _ _ => { dm := dm, val := none }, foreachBind := fun dm _ _ _ _ => dm,
-      getByLocation := fun dm _ _ => { dm := dm, val := none }, set := fun dm _ _ => dm, setEvent := fun dm _ => dm,
-      initData := fun dm _ _ => { dm := dm, val := () }, doneData := fun dm _ _ => { dm := dm, val := [] },
-      platformSend := fun _ _ _ _ => .noProcessor, hasProcessor := fun _ _ => false, parseDelay := fun _ => 0,
-      invoke := fun dm _ _ _ => { dm := dm } }
-  have hm := h Unit ops [] [] none 0 [] { dm := () } rfl
-  rw [(C08_script_error_raises_nothing ops [] [] none 0 [] { dm := () } rfl rfl).1] at hm
-  simp at hm
-#assert_axioms C12_counterexample_quiet_error
+theorem C12_content : C12_content_full := by
+  intro σ ops rs cfg caller f l e x herr
+  have h := C08_script_error ops rs cfg caller f l e x herr
+  rw [h.1, h.2.2.1]
+  simp
+#assert_axioms C12_content
 
 end Rfsm.Interp
 
@@ -285,7 +277,8 @@ theorem C12_counterexample : ¬ C12_full := fun h => Expr.C11_counterexample h.2
 
 /-- what is proved: no panic and exact error reporting at the `<send>` / event-I/O-processor
 level, and the cancel event is honoured in every state -/
-theorem C12_partial : Route.C12_route_full ∧ Interp.C12_cancel_full := ⟨Route.C12_route, Interp.C12_cancel⟩
+theorem C12_partial : Route.C12_route_full ∧ Interp.C12_cancel_full ∧ Interp.C12_content_full :=
+  ⟨Route.C12_route, Interp.C12_cancel, Interp.C12_content⟩
 #assert_axioms C12_partial
 
 end Rfsm
